@@ -22,10 +22,10 @@ def run(ck):
             g = dict(g); g["den"] = 8; g["orc"] = 0
             g["calls"] = [pcall(a, "list") for a in FIT4]
             groups.append(g); ck.cat("dyadic")
-    for g in scope.p_scope(ck, 8, 7, 1, minv=2):
+    for g in scope.p_scope(ck, 8 if q else 9, 7, 1, minv=2):
         if len(g["vals"]) >= 7:
             groups.append({"vals": g["vals"], "C": 12, "orc": 0, "calls": [pcall("bc", "list")]})
-    fam = gen.pack_families(ck.rng, 400 if q else 8000, maxn=12 if q else 14)
+    fam = gen.pack_families(ck.rng, 400 if q else 30000, maxn=12 if q else 14)
     for g in fam + WITNESS:
         g = dict(g); g["orc"] = 0
         g["calls"] = [pcall(a, "list") for a in PACKERS]
